@@ -446,6 +446,23 @@ func runAll(c *run.Ctx) {
 			}
 		}
 	}
+	// stress stream: operands with up to three times as many vertices (large lattice and general position)
+	for i := 0; i < c.N(300, 6000); i++ {
+		c.Case("big", i, func(k *run.K) {
+			domain := []string{gen.DLarge, gen.DGP, gen.DSmall}[k.Rng.Intn(3)]
+			cfg := gen.NewCfg(k.Rng, domain)
+			cfg.Big = true
+			if domain == gen.DSmall {
+				cfg.Side = 12
+			}
+			g := &gen.G{R: k.Rng, Cfg: cfg}
+			a, b := g.Typed(gen.AllTypes[k.Rng.Intn(7)], 1), g.Typed(gen.AllTypes[k.Rng.Intn(7)], 1)
+			k.In("domain", domain)
+			k.In("a", shared.WKT(a))
+			k.In("b", shared.WKT(b))
+			Pair(k, domain, a, b, false)
+		})
+	}
 	for i := 0; i < c.N(1500, 20000); i++ {
 		c.Case("grid", i, func(k *run.K) {
 			// both operands on the grid lines of one small lattice: collinear overlaps, shared
